@@ -270,6 +270,21 @@ Definition canonical (fix_first : bool) (fuel : nat) (g : grammar)
   '(states, _, trans) <- canon_loop fix_first fuel fuel g first ([iis], [0], []) ;;
   Ok (states, trans).
 
+(* ---------------------------------------------------------------- comparison helpers (correspondence) *)
+Definition sub_table {A} (eqb : A -> A -> bool) (l1 l2 : list ((Z * Z) * A)) : bool :=
+  forallb (fun e => match lookup (fst e) l2 with Some v => eqb (snd e) v | None => false end) l1.
+Definition tables_eqb (T1 T2 : tables) : bool :=
+  sub_table action_eqb (actions T1) (actions T2) && sub_table action_eqb (actions T2) (actions T1) &&
+  sub_table Z.eqb (gotos T1) (gotos T2) && sub_table Z.eqb (gotos T2) (gotos T1).
+(* model builder outcome against the implementation's: Some (T, sr) = tables (renumbered to the model's
+   state numbering) and whether a shift/reduce conflict was resolved; None = the builder raised *)
+Definition build_matches (fix_first : bool) (fuel : nat) (g : grammar) (expected : option (tables * bool)) : bool :=
+  match generate_tables_sr fix_first fuel g, expected with
+  | Ok (T, sr), Some (T', sr') => tables_eqb T T' && Bool.eqb sr sr'
+  | Diag _, None | Internal _, None => true
+  | _, _ => false
+  end.
+
 (* ---------------------------------------------------------------- rendering *)
 #[global] Instance ToVal_action : ToVal action := fun a =>
   match a with
